@@ -88,14 +88,17 @@ def run(pid, tier, t0):
              "checker_cmd": "./hlv check %s --tier %s" % (pid, tier),
              "trusted_base": BASE_ASSUME}
     uses_alg = any(getattr(r, "__name__", "").startswith("rule_") and getattr(r, "__module__", "") == __name__ and
-                   r.__name__ in ("rule_Y1", "rule_Y2", "rule_Y3", "rule_E5", "rule_X2", "rule_Q3", "rule_Q4") for r in rules)
+                   r.__name__ in ("rule_Y1", "rule_Y2", "rule_Y3", "rule_E5", "rule_X2", "rule_Q3", "rule_Q4") for r in rules) or \
+        any(getattr(r, "__module__", "") == "rules_sem" or getattr(r, "__name__", "") in ("rule_E1", "rule_P1") for r in rules)
     if uses_alg:
         import rules_alg
         extra["exhaustive"] = False
-        extra["bounds"] = {"list_length_max": rules_alg.tier_n(), "retries_max": rules_alg.RETRIES,
+        extra["bounds"] = {"list_length_max": rules_alg.tier_n(), "retries_max": rules_alg.retries(),
                            "injected_panics_max": rules_alg.tier_faults(),
-                           "note": "rules Y2/Y3/E5/X2/Q3/Q4 enumerate every abstract path within these bounds; all other rules "
-                                   "quantify over every function/impl/path of the crate"}
+                           "data_model": "E2/L2/N1: n <= 3 leaves, every address order / every n^n address assignment; "
+                                         "E1/P1 on sequences: 0, 2 and 3 elements (a const generic length is instantiated)",
+                           "note": "the data-model rules (Y2/Y3/E5/X2/Q3/Q4, E2/L2/N1, E1/P1 on sequences) enumerate every abstract path "
+                                   "within these bounds; all other rules quantify over every function/impl/path of the crate"}
     return common.finish(pid, tier, results, t0, expl, BASE_ASSUME, extra)
 
 
@@ -206,7 +209,7 @@ prop("C09",
      [A("rule_Y1"), A("rule_Y2"), A("rule_Y3"), sem.rule_E2, cg.rule_E3, st.rule_E1, sig.rule_O1, sig.rule_O3],
      "Y1 exactly one blocking acquisition site per pass, every other acquisition of the pass is a try; Y2 every path from a failed "
      "try back to the blocking site passes through the rollback of the prefix and the guarded release of the first lock; Y3 the "
-     "held set is empty whenever the blocking site is reached (k-bounded held-set analysis: list length <= 3 quick / 4 thorough, <= 2 "
+     "held set is empty whenever the blocking site is reached (k-bounded held-set analysis: list length <= 3 quick / 5 thorough, <= 2 / 3 "
      "retries, every try outcome and at most one (thorough: two) injected panics).",
      "'nevertheless finishes': liveness under contention (the authors document possible livelock).")
 
